@@ -49,6 +49,10 @@ def run(ctx):
             pat = [("*", None)]
         ops = [r.choice(OPS) for _ in range(r.randint(1, maxsteps))]
         walks.append((s, pat, ops))
+    # every comparator pattern of length <= 3 (the well-formed ones are kept below) as a start, with a short history
+    small = [p for n in (1, 2, 3) for p in vers.all_patterns(n)]
+    for i, pat in enumerate(small):
+        walks.append((schemes[i % len(schemes)], list(pat), [r.choice(OPS) for _ in range(r.randint(1, 3))]))
     wf = dict(zip([vers.clist_text(p) for _, p, _ in walks], core.run_driver(ctx, ["wf " + vers.clist_text(p) for _, p, _ in walks])))
     for wi, (s, pat, ops) in enumerate(walks):
         t0 = vers.clist_text(pat)
